@@ -16,7 +16,7 @@ func init() {
 			for n := 0; n <= 3; n++ {
 				is = append(is, mk("shape", "VerifC10Notation", cs("n", n)), mk("shape", "VerifC10NotationExt", cs("n", n)))
 			}
-			is = append(is, mk("shape", "VerifC10Arity", nil), mk("common/object", "VerifC10Object", nil), mk("transform", "VerifC10VoxelID", nil))
+			is = append(is, mk("shape", "VerifC10Arity", nil), mk("common/object", "VerifC10Object", nil), mk("common/object", "VerifC10ObjectText", nil), mk("transform", "VerifC10VoxelID", nil))
 			// engine self-check: the character-level string model against strconv's renderings
 			for k := 0; k <= 6; k++ {
 				in := mk("transform", "VerifC10StrModel", cs("k", k))
